@@ -28,7 +28,7 @@ LEVEL_NOTE = ("theorems are about the hand-written Gallina model of helpers.degr
               "to the Python code by the sampled correspondence check; the Bernstein specification is stated in Coq (bernstein/bezier), its "
               "link to the B-spline evaluator on a Bezier knot vector is only observed through operations.degree_operations cases")
 # functions of the numerical core this property rests on that are also tied by the translator (tie theorems: Proofs/GenTie*.v, restated in Props/)
-TRANSLATED = ["helpers.degree_reduction"]
+TRANSLATED = ["helpers.degree_reduction", "helpers.degree_elevation", "linalg.binomial_coefficient"]
 TECHNIQUE = "Coq 8.16: general induction / finite-sum algebra (binomial theorem) for all degrees and counts; field on symbolic polygons per (degree,count) as cross-check; Paramcoq free theorem for the coordinate-wise lift; exact Fraction oracle via power-basis conversion"
 
 
